@@ -602,6 +602,21 @@ def r15_restart_point_label_and_callers_list(idx, r):
         raise AnchorMissing("getHistory/getHistories: removal of the current step")
 
 
+def r17_finalised_on_every_exit_and_live_answers(idx, r):
+    """(a) the database is finalised (EOL snapshot, completion flag) by interactAllEOL, which _mainOperate reaches on every normal exit - also
+    when an interface halts the run at the start of a cycle (rule R15.1, shared).  (b) the history tracker decides whether a step has been
+    written by ASKING the database at that moment: `_databaseHasDataForTimeStep` keeps nothing on the tracker - a remembered set of steps is
+    stale as soon as the database interface writes the next node, and the history then serves the live value for a step that is on file."""
+    from .c15 import r1_main
+    r1_main(idx, r)
+    f = idx.method("armi.bookkeeping.historyTracker.HistoryTrackerInterface", "_databaseHasDataForTimeStep")
+    selfreads = [x for x in walk_local(f.node) if isinstance(x, ast.Attribute) and isinstance(x.value, ast.Name) and x.value.id == "self" and x.attr not in ("getInterface", "o", "r", "cs")]
+    selfwrites = [s_ for s_ in iter_stores(f.node) if s_.chain and s_.chain.startswith("self.")]
+    asks = [c for c in iter_calls(f.node) if "database" in norm(c.func)]
+    r.require(not selfreads and not selfwrites and bool(asks), "_databaseHasDataForTimeStep:asks-the-database-every-time", f, node=(selfreads[0] if selfreads else None),
+              msg=f"the answer is taken from the tracker's own state ({sorted({norm(x) for x in selfreads})}): once filled it does not see the snapshots written afterwards")
+
+
 def r16_pairing(idx, r):
     from ..pairing import pairing_rule
     pairing_rule(idx, r, ["armi.bookkeeping.db.databaseInterface", "armi.bookkeeping.db.database", "armi.bookkeeping.historyTracker", "armi.bookkeeping.snapshotInterface"], 40)
@@ -644,3 +659,5 @@ def run(idx, chk):
                  necessary="a restarted run holds exactly the steps before the restart point plus its own; a snapshot is found under the label asked for; histories hold every requested step")
     chk.run_rule("R06.16", "arguments stand at the parameter they are named after; sibling calls forward the same pass-through parameters", lambda r: r16_pairing(idx, r), floor=1,
                  necessary="(cycle, node, label) reach the reader in that order")
+    chk.run_rule("R06.17", "interactAllEOL on every normal exit of the main loop (R15.1); the tracker asks the database whether a step is written", lambda r: r17_finalised_on_every_exit_and_live_answers(idx, r), floor=3,
+                 necessary="a run that ends normally leaves a finalised file; histories return the written value of every written step")
